@@ -40,7 +40,7 @@ def readAst : Nat → Str → Option (CType × Str)
     | 'V' :: c :: v :: '"' :: r =>
       let name := r.takeWhile (· != '"')
       match r.dropWhile (· != '"'), bit c, bit v with
-      | _ :: rest, some c, some v => some (.value (String.ofList name) c v, rest)
+      | _ :: rest, some c, some v => some (.value name c v, rest)
       | _, _, _ => none
     | 'P' :: n :: c :: v :: q :: '(' :: r =>
       match bit n, bit c, bit v, bit q, readAst f r with
